@@ -586,6 +586,33 @@ def width_and_selector_rules(ctx, s, low):
            "matrix row (the diagonal is smaller for symbols like X, similar k-mers are then lost)", sk.lineno)
     # ---- R5 selectors
     super_init_forwards(ctx, SEL, "R5.selector-init-forwards", 1)
+    # the alphabet whose symbols are enumerated is the k-mer alphabet's BASE alphabet (the matrix may know more symbols: it is trimmed)
+    ctx.ob("R4.similarity-over-base-alphabet", KS, "ScoreThresholdRule.similar_kmers", "alph_len = len(kmer_alphabet.base_alphabet)",
+           has_code(sk, "alph_len = len(kmer_alphabet.base_alphabet)"),
+           "similar k-mers are enumerated over the symbols of the k-mer alphabet: with the length of the matrix alphabet, symbols that the "
+           "k-mer alphabet does not have are enumerated (codes out of range)", sk.lineno)
+    # the minimizer scan: the marker for 'no previous minimum' is a position no window can have
+    mz = ctx.src(SEL).func("_minimize")
+    ctx.ob("R5.minimizer-start-marker", SEL, "_minimize", "prev_argcummin = kmers.shape[0]",
+           has_code(mz, "prev_argcummin = kmers.shape[0]"),
+           "positions run from 0 to len(kmers) - 1: any smaller start value is the position of a real k-mer, whose minimizer would be taken for "
+           "a repetition and dropped", mz.lineno)
+    # a spacing model given as positions is a SET of positions: it is sorted before span, k and the k-mer arrays are derived from it
+    ki = ka.func("KmerAlphabet.__init__")
+    sorts = [k_ for k_, st in enumerate(stmts(ki)) if isinstance(st, ast.Expr) and has_code(st, "self._spacing.sort()")]
+    ctx.ob("R5.spacing-sorted", KA, "KmerAlphabet.__init__", "self._spacing.sort() before the model is used",
+           len(sorts) == 1 and has_code(ki, "self._spacing = np.array(spacing, dtype=np.int64)"),
+           "an unsorted list of informative positions gives a wrong span and k-mer arrays that read beyond the sequence, and an alphabet that "
+           "differs from the one of the equivalent string model", ki.lineno)
+    # positions handed in by the caller are copied element by element: their memory layout is the caller's business
+    fp = s.func("KmerTable.from_positions")
+    raw = [c for c in ast.walk(fp) if isinstance(c, ast.Call) and call_name(c) in ("memcpy", "memmove") and any(
+        isinstance(y, ast.UnaryOp) and isinstance(y.op, ast.UAdd) and any(isinstance(z, ast.Name) and z.id == "positions" for z in ast.walk(y))
+        for a_ in c.args for y in ast.walk(a_))]
+    ctx.ob("R5.positions-copied-by-element", KT, "KmerTable.from_positions", "kmer_ptr[0] = positions[i, 0]; kmer_ptr[0] = positions[i, 1]",
+           not raw and has_code(fp, "kmer_ptr[0] = positions[i, 0]") and has_code(fp, "kmer_ptr[0] = positions[i, 1]"),
+           "a raw memory copy from the address of the first element assumes C-contiguous rows: a strided, transposed or reversed (n, 2) view "
+           "is a valid position array", fp.lineno)
     mi = ctx.src(SEL).func("MincodeSelector.__init__")
     th = field_of(summarize(mi), "self", "_threshold")
     ctx.ob("R5.mincode-threshold", SEL, "MincodeSelector.__init__", "offset + range / compression, range = max - min + 1 (or the alphabet size)",
